@@ -148,6 +148,31 @@ def debug(cfg, crate, rep):
 LOADERS = [KP + "::from_pem", KP + "::from_pkcs8_pem_and_sign_algo", KP + "::from_pkcs8_der_and_sign_algo", KP + "::from_pem_and_sign_algo", KP + "::from_der_and_sign_algo"]
 
 
+def _strip_foreign_errors(v):
+    """`v` with every error payload of a parser / conversion call (`pem::parse(text)#Err.0`, ..) replaced by a constant: a
+    foreign error value is not the loader input -- what *it* may render is the subject of C19.err (quoting variants of
+    pem's error are masked there), so handing it to `to_string()` / into `Error::X(..)` is not a flow of key material."""
+    from interp import Sel, Via, CallV, StructV, PhiV, TupleV, Const
+    if isinstance(v, Sel):
+        b0 = core(v.base)
+        from interp import flatten_phi
+        alts_ = [core(x) for _, x in flatten_phi(b0)] if isinstance(b0, PhiV) else [b0]
+        if v.sel.startswith("#Err") and alts_ and all(isinstance(x, CallV) and any(y in x.callee for y in ALLOWED_CONSUMERS) for x in alts_):
+            return Const("<foreign error>")
+        return Sel(_strip_foreign_errors(v.base), v.sel)
+    if isinstance(v, Via):
+        return Via(v.name, _strip_foreign_errors(v.inner), v.callee)
+    if isinstance(v, CallV):
+        return CallV(v.callee, [_strip_foreign_errors(a) for a in v.args], v.node, getattr(v, "inst", None))
+    if isinstance(v, StructV):
+        return StructV(v.adt, v.variant, {k: _strip_foreign_errors(x) for k, x in v.fields.items()}, v.base, v.node)
+    if isinstance(v, PhiV):
+        return PhiV([(c, _strip_foreign_errors(x)) for c, x in v.alts])
+    if isinstance(v, TupleV):
+        return TupleV([_strip_foreign_errors(x) for x in v.items])
+    return v
+
+
 def taint(cfg, crate, rep):
     fns = [f for f in LOADERS if f in crate.bodies] + [k for k in crate.bodies if k.startswith("<key_pair::KeyPair as std::convert::TryFrom<") and k.endswith("::try_from") and "hir" in crate.bodies[k]]
     n_calls = 0
@@ -160,7 +185,7 @@ def taint(cfg, crate, rep):
         for callee, args, node, cond, f in I.calls:
             if f != fn:
                 continue
-            hit = [a for a in args if any(p.split(".")[0].split("#")[0].split("[")[0].split("?")[0] in tainted for p in places(a))]
+            hit = [a for a in args if any(p.split(".")[0].split("#")[0].split("[")[0].split("?")[0] in tainted for p in places(_strip_foreign_errors(a)))]
             if not hit:
                 continue
             n_calls += 1
@@ -172,7 +197,7 @@ def taint(cfg, crate, rep):
             if f == fn and ((sv.variant or "").startswith("error::Error::") or (sv.variant or "").startswith("error::InvalidAsn1String::")):
                 pl = set()
                 for x in sv.fields.values():
-                    pl |= places(x)
+                    pl |= places(_strip_foreign_errors(x))
                 bad = [p for p in pl if p.split(".")[0].split("#")[0].split("[")[0].split("?")[0] in tainted]
                 rep.ob("C19.taint", "%s|%s|error|%s" % (cfg, fn, sv.variant.split("::")[-1]), not bad, "an error value built in a key loader carries the loader input", found=bad, sp=node.get("sp"))
         # stored document: only KeyPair.serialized_der may hold a copy
